@@ -174,6 +174,7 @@ class GenResult:
     dropped: List[dict]
     clause_ids: Dict[str, dict]
     lost_anchors: List[str]
+    contracts: Dict[str, dict] = field(default_factory=dict)
 
 
 class Emitter:
@@ -188,10 +189,13 @@ class Emitter:
         d = {'k': 'ins', 'id': cid}
         if extra:
             d.update(extra)
+        assert '/*V>*/' not in text and '*' not in cid, cid
+        if '//' in text.split('\n')[-1]:
+            text += '\n'
         self.parts.append((VOPEN % cid + text + VCLOSE, d))
 
     def raw(self, text, cid='wrap'):
-        self.parts.append((text, {'k': 'wrap', 'id': cid}))
+        self.parts.append(('/*<W*/' + text + '/*W>*/', {'k': 'wrap', 'id': cid}))
 
     def deleted(self, text):
         # records removed source text inside a comment; `*/` cannot occur in the removed tokens we handle
@@ -412,7 +416,10 @@ def gen_file(em: Emitter, repo: str, mod: ModSpec, sc: Sidecar, res: dict, unit_
         body = src[body_s:body_e]
         for p in c.proofs:
             if p.mode == 'start':
-                add_ins(body_s, '\nproof {\n' + p.text + '\n}\n', '%s:%s' % (p.cid, c.label), {'contract': c.label})
+                if p.text.lstrip().startswith('@raw'):
+                    add_ins(body_s, '\n' + p.text.lstrip()[4:] + '\n', '%s:%s' % (p.cid, c.label), {'contract': c.label})
+                else:
+                    add_ins(body_s, '\nproof {\n' + p.text + '\n}\n', '%s:%s' % (p.cid, c.label), {'contract': c.label})
                 continue
             ms = list(re.finditer(p.pattern, body))
             if len(ms) < p.ordinal:
@@ -603,9 +610,24 @@ def _rewrite_or_guard(toks, pairs, f, src, add_ins, add_del, res, fkey):
         i += 1
 
 
+def add_canary(sig: str) -> str:
+    """Append `false` to the ensures section (vacuity canary: this MUST fail to verify)."""
+    m = re.search(r'(?m)^(\s*)ensures\b', sig)
+    if m:
+        return sig[:m.end()] + ' false, ' + sig[m.end():]
+    m = re.search(r'(?m)^(\s*)decreases\b', sig)
+    if m:
+        return sig[:m.start()] + '    ensures false,\n' + sig[m.start():]
+    return sig + '\n    ensures false,\n'
+
+
 def generate(repo: str, mods: List[ModSpec], sidecar_paths: List[str], prelude_paths: List[str],
-             features: List[str], top_extra: str = '') -> GenResult:
+             features: List[str], top_extra: str = '', canary: bool = False) -> GenResult:
     sc = parse_sidecar(sidecar_paths)
+    if canary:
+        for c in sc.contracts.values():
+            if c.mode == 'verify':
+                c.sig = add_canary(c.sig)
     em = Emitter()
     res = {'under_contract': [], 'external_body': [], 'rewrites': [], 'dropped': [], 'lost_anchors': []}
     head = ''
@@ -638,6 +660,9 @@ def generate(repo: str, mods: List[ModSpec], sidecar_paths: List[str], prelude_p
         emit_mod(m, 0)
     em.raw('\n} // verus!\nfn main() {}\n')
     text, linemap = em.finish()
-    return GenResult(text=text, linemap=linemap, under_contract=res['under_contract'],
+    res['contracts'] = {c.label: {'props': c.props, 'mode': c.mode, 'file': c.file, 'sig': c.sig,
+                                  'loops': c.loops, 'src': os.path.basename(c.src), 'line': c.line}
+                        for c in sc.contracts.values()}
+    return GenResult(contracts=res['contracts'], text=text, linemap=linemap, under_contract=res['under_contract'],
                      external_body=res['external_body'], rewrites=res['rewrites'], dropped=res['dropped'],
                      clause_ids={}, lost_anchors=res['lost_anchors'])
